@@ -83,6 +83,7 @@ def gen_behaviour(r, profile, geom, bid, cfg, length=None, safe_first=False):
     ops = []
     appended = {t: [] for t in topics}   # sizes in order (approximate view for offset reads)
     started = {}
+    consumed = {}
     W = {
         "seq":     {"append": 40, "batch": 12, "read": 15, "bread": 30},
         "peek":    {"append": 32, "batch": 8, "read": 8, "bread": 16, "peek": 18, "oread": 18},
@@ -154,8 +155,25 @@ def gen_behaviour(r, profile, geom, bid, cfg, length=None, safe_first=False):
                                      {"op": "bread", "t": t, "budget": -1, "ckpt": True, "off": -1}]))
         elif k == "read":
             ops.append({"op": "read", "t": t, "ckpt": True})
+            if consumed.get(t, 0) < len(appended[t]):
+                consumed[t] = consumed.get(t, 0) + 1
         elif k == "bread":
-            ops.append({"op": "bread", "t": t, "budget": pick_budget(r, geom), "ckpt": True, "off": -1})
+            b = pick_budget(r, geom)
+            un = appended[t][consumed.get(t, 0):]
+            if un and r.random() < 0.35:
+                # aim the budget at an entry boundary of the unread data (raw bytes or payload bytes)
+                kk = min(len(un), r.choice([1, 1, 2, 3]))
+                raw = r.random() < 0.6
+                b = max(0, sum(x + (PREFIX if raw else 0) for x in un[:kk]) + r.choice([-1, 0, 0, 1]))
+            ops.append({"op": "bread", "t": t, "budget": b, "ckpt": True, "off": -1})
+            # rough model of what it consumes (only used for aiming later budgets)
+            tot, n_ = 0, 0
+            for x in un[:g["max_batch"]]:
+                if n_ >= 1 and b >= 0 and tot + x > b:
+                    break
+                tot += x
+                n_ += 1
+            consumed[t] = consumed.get(t, 0) + n_
         elif k == "peek":
             if r.random() < 0.4:
                 ops.append({"op": "read", "t": t, "ckpt": False, "nc": True})
